@@ -13,12 +13,22 @@
   a BadRegularization left half-done (outside the property's quantifier; the comparator only
   checks that the implementation does not throw there), `not-modelled` when the numeric model
   does not cover the query.
+
+  Round 3: several problems per case (`problem … end` repeatedly, `select k`), `reset_new k` =
+  `reset(A', b')` of problem k (solver entry; Model/FullHist.lean) / `set(data of problem k)` (adj entry;
+  Model/AdjHist.lean: the `Adj` machine carries `A_dot`, `b_dot` — printed in the state line as
+  `adot <rows> <cols>` — and the provenance of the matrix the solver was given; an answer computed from a
+  matrix that is not "rows of the current data on a zeroed matrix" prints `stale …`).  `info`/`envinfo`
+  lines must follow a `reset_new` before the next query.
 -/
 import Gama.Proto
 import Gama.Model.FullState
 import Gama.Model.AdjState
 import Gama.Lemmas.FullState
 import Gama.Lemmas.AdjState
+import Gama.Model.FullHist
+import Gama.Model.AdjHist
+import Gama.Lemmas.AdjHist
 import Gama.Model.Ls.Common
 import Gama.Model.Ls.Adj
 open Gama Gama.Proto Gama.Ls Gama.C04 Gama.C04.Full Gama.C04.AdjM
@@ -74,11 +84,13 @@ def parseInfo (ts : List String) : Option Info := do
 inductive Obj
   | full (k : Kind) (s : FState)
   | svd (s : SState)
-  | adj (s : AState)
+  | adj (s : HA)
 
 structure St where
   build : Option (PBuild Float) := none
   prob : Option (Problem Float) := none
+  probs : Array (Problem Float) := #[]
+  sel : Nat := 0             -- identity (1-based position) of `prob`
   obj : Option Obj := none
   /-- nullity per algorithm as the implementation sees it (env, chol, gso, svd) -/
   nul : AdjM.Alg → Nat := fun _ => 0
@@ -97,7 +109,8 @@ def showFull (k : Kind) (s : FState) : String :=
   | .gso => s!"st {b01 s.solved} {b01 s.useAll} list " ++ showList (sortDedup (s.list.getD []))
 
 def showSvd (nullity : Nat) (s : SState) : String :=
-  let veq := match s.vprov with | .plain => s.minV | _ => false
+  -- `minV` of an EARLIER input survives `reset`; it equals the plain V only if saved from the current data
+  let veq := match s.vprov with | .plain => s.minV && s.minVok | _ => false
   s!"st {b01 s.solved} {b01 s.decomposed} {b01 s.sub} list " ++ (match s.list with | none => "null" | some l => showList l)
     ++ " defect " ++ (if s.decomposed then s!"{nullity}" else "-")
     ++ " veq " ++ (if s.decomposed then b01 veq else "-")
@@ -118,8 +131,9 @@ def showSolver (nul : AdjM.Alg → Nat) : Solver → String
   | .full k s => showFull k s
   | .svd s => showSvd (nul .svd) s
 
-def showAdj (nul : AdjM.Alg → Nat) (s : AState) : String :=
-  s!"adj {b01 s.solved} {algName s.alg} ls " ++
+def showAdj (nul : AdjM.Alg → Nat) (h : HA) : String :=
+  let s := h.s
+  s!"adj {b01 s.solved} {algName s.alg} adot {h.adot.rows} {h.adot.cols} ls " ++
     (match s.ls with
      | none => "null"
      | some sv => algName sv.alg ++ " | " ++ showSolver nul sv)
@@ -210,8 +224,8 @@ def aInput (s : St) (p : Problem Float) : AInput :=
     | some f => f.toInput (resolvesDefault f.nullity)
     | none => { n := p.n, nullity := s.nul .env, invp := fun i => i, inEnv := fun _ _ => true,
                 resolves := resolvesDefault (s.nul .env), qbbIn := fun _ _ => true }
-  { env := envIn, chol := fInput p.n (s.nul .chol), gso := fInput p.n (s.nul .gso), svd := fInput p.n (s.nul .svd),
-    minx := minx, rows := fun i => ((p.rows.getD (i - 1) #[]).toList.map (·.1)) }
+  { env := { envIn with id := s.sel }, chol := fInput p.n (s.nul .chol), gso := fInput p.n (s.nul .gso), svd := fInput p.n (s.nul .svd),
+    minx := minx, rows := fun i => ((p.rows.getD (i - 1) #[]).toList.map (·.1)), id := s.sel, m := p.m, n := p.n }
 
 def numAdj (a : Except ErrKind (Answer Float)) : AOp → String
   | .x => showE (fun (r : Answer Float) => showVec r.x) a
@@ -222,13 +236,13 @@ def numAdj (a : Except ErrKind (Answer Float)) : AOp → String
   | .qbb i j => showE (fun x => "val " ++ showFloat x) (a >>= fun r => r.qbb i j)
   | _ => "ok"
 
-def evalAdj (a : Except ErrKind (Answer Float)) (op : AOp) (o expected : AOut) : String :=
-  match o with
+def evalAdj (a : Except ErrKind (Answer Float)) (op : AOp) (o expected : HAOut) : String :=
+  match o.1 with
   | .ok => "ok"
   | .throw (.env .badReg) => "throw BadRegularization"
   | .throw (.full .badReg) => "throw BadRegularization"
   | .nullDeref => "null-deref"
-  | _ => if o = expected then numAdj a op else "stale " ++ toString (repr o)
+  | _ => if o = expected then numAdj a op else "stale " ++ toString (repr o.1) ++ " on " ++ toString (repr o.2)
 
 def step' (s : St) (line : String) : St × String :=
   let ts := tokens line
@@ -236,14 +250,14 @@ def step' (s : St) (line : String) : St × String :=
   | [] => (s, "")
   | ["problem", m, n] =>
     match m.toNat?, n.toNat? with
-    | some m, some n => ({ build := some { m := m, n := n } }, "")
+    | some m, some n => ({ build := some { m := m, n := n }, probs := s.probs }, "")
     | _, _ => (s, "bad-op")
   | _ =>
   match s.build with
   | some b =>
     if ts = ["end"] then
       match b.finish with
-      | some p => ({ prob := some p }, "ok")
+      | some p => ({ prob := some p, probs := s.probs.push p, sel := s.probs.size + 1 }, "ok")
       | none => ({}, "bad-op")
     else match b.feed ts with
       | some b' => ({ s with build := some b' }, "")
@@ -253,6 +267,24 @@ def step' (s : St) (line : String) : St × String :=
   | none => (s, "bad-op")
   | some p =>
   match ts with
+  | ["select", k] =>
+    match k.toNat? with
+    | some k => if 1 ≤ k ∧ k ≤ s.probs.size then ({ s with prob := s.probs[k - 1]?, sel := k, obj := none, env := none }, "ok") else (s, "bad-op")
+    | none => (s, "bad-op")
+  | ["reset_new", k] =>
+    match k.toNat? with
+    | none => (s, "bad-op")
+    | some k =>
+      if ¬ (1 ≤ k ∧ k ≤ s.probs.size) then (s, "bad-op") else
+      let p' := s.probs.getD (k - 1) p
+      let s' : St := { s with prob := some p', sel := k, env := none, nul := fun _ => 0 }
+      match s.obj with
+      | some (.full kd st) => if !p'.unitCov then (s, "bad-op") else ({ s' with obj := some (.full kd (Full.freset st)) }, "ok")
+      | some (.svd st) => if !p'.unitCov then (s, "bad-op") else ({ s' with obj := some (.svd (Full.sreset st)) }, "ok")
+      | some (.adj h) =>
+        -- `set(data')`: the model's `set` does not look at the data; the new facts arrive with `info`/`envinfo`
+        ({ s' with obj := some (.adj (hastep h (.setData h.inp)).1) }, "ok")
+      | none => (s, "bad-op")
   | ["new", a, "solver"] =>
     if !p.unitCov then (s, "bad-op") else
     let cfgF : FState := match p.reg with
@@ -266,7 +298,7 @@ def step' (s : St) (line : String) : St × String :=
     | _ => (s, "bad-op")
   | ["new", a, "adj"] =>
     match parseAlg a with
-    | some a => ({ s with obj := some (.adj (ainit a)), env := none }, "ok")
+    | some a => ({ s with obj := some (.adj (hainit (aInput s p) a)), env := none }, "ok")
     | none => (s, "bad-op")
   | ["info", a, _n, nul] =>
     match parseAlg a, nul.toNat? with
@@ -299,11 +331,11 @@ def step' (s : St) (line : String) : St × String :=
         let o := Full.sfresh inp st.sub st.list op
         (s, evalFull (outsideS inp st) (solverOf .svd { p with reg := regSvd st }) o (Full.sspec inp (Full.seff st) op))
       | none => (s, "bad-op")
-    | some (.adj st) =>
+    | some (.adj h) =>
       match parseAOp q with
       | some op =>
         let inp := aInput s p
-        (s, evalAdj (adjSolve (lsAlg st.alg) p) op (afresh inp st.alg op) (aspec inp st.alg op))
+        (s, evalAdj (adjSolve (lsAlg h.s.alg) p) op (hafresh inp h.s.alg op) (haspec inp h.s.alg op))
       | none => (s, "bad-op")
     | none => (s, "bad-op")
   | _ =>
@@ -325,12 +357,12 @@ def step' (s : St) (line : String) : St × String :=
         ({ s with obj := some (.svd st') },
           evalFull (outsideS inp st') (solverOf .svd { p with reg := regSvd st' }) o (Full.sspec inp (Full.seff st) op))
       | none => (s, "bad-op")
-    | some (.adj st) =>
+    | some (.adj h) =>
       match parseAOp ts with
       | some op =>
         let inp := aInput s p
-        let (st', o) := astep inp st op
-        ({ s with obj := some (.adj st') }, evalAdj (adjSolve (lsAlg st.alg) p) op o (aspec inp st.alg op))
+        let (h', o) := hastep { h with inp := inp } (.q op)
+        ({ s with obj := some (.adj h') }, evalAdj (adjSolve (lsAlg h.s.alg) p) op o (haspec inp h.s.alg op))
       | none => (s, "bad-op")
     | none => (s, "bad-op")
 
